@@ -10,6 +10,8 @@ import (
 	"encoding/json"
 	"fmt"
 	"os"
+	"runtime"
+	"time"
 )
 
 type verifCexFile struct {
@@ -154,7 +156,22 @@ func vOr(a, b bool) bool  { return a || b }
 func vNot(a bool) bool    { return !a }
 func vImp(a, b bool) bool { return !a || b }
 
-func verifYield()                             {}
+func verifYield()                             { runtime.Gosched() }
+
+// verifWait yields; natively it always reports that somebody else may have run.
+func verifWait() bool {
+	verifWaits++
+	if verifWaits%64 == 0 {
+		time.Sleep(50 * time.Microsecond)
+	} else {
+		runtime.Gosched()
+	}
+	return verifWaits < 200000
+}
+
+var verifWaits int
+
+func verifPollContexts() {}
 func verifSchedPolicy(policy string, free int) {}
 func verifLiveGoroutines() int                { return 0 }
 func verifGrowExact(on bool)                  {}
